@@ -180,9 +180,9 @@ def claimBoosted (s : St) (caller : Nat) (orig : Option Nat) : Option (St × Out
 
 /-- endpoint `depositSwapFees` with a single ESDT payment `(tok, nonce, amount)`.
     A payment with a nonce must be the locked token and is burned; a locked-token payment
-    without nonce cannot exist (SFT balances always carry a nonce ≥ 1) — platform guard. -/
+    without nonce cannot exist (SFT balances always carry a nonce ≥ 1) — platform guard.
+    The contract has no check on the amount (the white-box VM lets a zero transfer through). -/
 def deposit (s : St) (caller : Nat) (tok : Tok) (nonce amount : Nat) : Option (St × Out) := do
-  req (0 < amount)
   req (tok = lockedTok → 0 < nonce)
   req (caller ∈ s.knownContracts)
   req (tok ∈ s.a.allTokens)
